@@ -522,9 +522,15 @@ class GhwTypes:
     def vector_base(self, elem, name):
         return self.add(("array", elem, name), bytes([31]) + varint(self.sid(name)) + varint(elem) + varint(1) + varint(self.natural()))
 
-    def vector(self, elem, base_name, left, right, name=None):
-        base = self.vector_base(elem, base_name)
+    def vector(self, elem, base_name, left, right, name=None, enum_index=False):
         downto = left > right
+        if enum_index:
+            # an array indexed by an enumeration (like `character`): the bounds are positions, stored as two raw bytes
+            idx = self.enum("chr_t", ["c%d" % k for k in range(130)])
+            base = self.add(("array", elem, base_name, idx), bytes([31]) + varint(self.sid(base_name)) + varint(elem) + varint(1) + varint(idx))
+            rec = bytes([35]) + varint(self.sid(name)) + varint(base) + bytes([23 | (0x80 if downto else 0), left, right])
+            return self.add(("subarray", base, left, right, name), rec)
+        base = self.vector_base(elem, base_name)
         rec = bytes([35]) + varint(self.sid(name)) + varint(base) + bytes([25 | (0x80 if downto else 0)]) + sleb(left) + sleb(right)
         return self.add(("subarray", base, left, right, name), rec)
 
@@ -618,7 +624,7 @@ def write_ghw(path, items, rounds=None, snapshot=None, share_strings=True, big_e
                         return ghw_type_of(tt, x)
                     comp = x.extra["composite"]
                     if comp[0] == "array":
-                        return tt.vector(comp_type(x.children[0]), comp[3], comp[1], comp[2], name=comp[4])
+                        return tt.vector(comp_type(x.children[0]), comp[3], comp[1], comp[2], name=comp[4], enum_index=len(comp) > 5 and comp[5])
                     return tt.record(comp[1], [(e.name, comp_type(e)) for e in x.children])
 
                 def assign(x):
